@@ -8,3 +8,6 @@ import QV.Gen.Tables
 import QV.Drive.BExpJson
 import QV.Drive.CircJson
 import QV.Props.C09
+import QV.Model.Amp
+import QV.Model.Algo
+import QV.Props.C16
